@@ -83,7 +83,11 @@ fn bad_names(kind: &str, rng: &mut Rng) -> (String, NameClass, &'static str) {
 }
 
 const BAD_ACK_IDS: [&str; 9] = ["", "abc", " 1", "1 ", "1a", "99999999999999999999999999", "１２", "-1", "1.0"];
-const BAD_TOKENS: [&str; 8] = ["!", "AAAA", "AAAAAAAAAAAA", "not base64 at all", "=", "AAAAAAAAAAA", "é", "AAAAAAAAAAAAAAAAAAAAAA=="];
+const BAD_TOKENS: [&str; 14] = [
+    "!", "AAAA", "AAAAAAAAAAAA", "not base64 at all", "=", "AAAAAAAAAAA", "é", "AAAAAAAAAAAAAAAAAAAAAA==",
+    // decodable 8-byte tokens (little-endian offsets 1, 2, 3, 1000, 2^63, 2^64-1): beyond what exists
+    "AQAAAAAAAAA=", "AgAAAAAAAAA=", "AwAAAAAAAAA=", "6AMAAAAAAAA=", "AAAAAAAAAIA=", "//////////8=",
+];
 const BAD_ENDPOINTS: [&str; 5] = ["ftp://example.com/x", "file:///etc/passwd", "//example.com", "htp://example.com", "example.com/push"];
 
 struct St {
@@ -372,7 +376,7 @@ async fn episode(p: &EpParams) -> EpReport {
                 };
                 if let Some(c) = r {
                     // undecodable tokens must be rejected; a decodable one yields a (possibly empty) page
-                    let decodable = tok == "AAAAAAAAAAA" || tok == "AAAAAAAAAAA=";
+                    let decodable = tok == "AAAAAAAAAAA" || tok == "AAAAAAAAAAA=" || (tok.len() == 12 && tok.ends_with('=') && !tok.ends_with("=="));
                     let demand = if decodable { None } else { Some(INVALID_ARGUMENT) };
                     st.judge(["ListTopics.page_token", "ListSubscriptions.page_token", "ListTopicSubscriptions.page_token"][which as usize], "hostile-token", c, demand, &[0, INVALID_ARGUMENT]).await;
                 }
